@@ -475,7 +475,76 @@ func TestC19History(t *testing.T) {
 	})
 }
 
+// ---------------------------------------------------------------------------------------------
+// budget staircase: the number of tiers climbed must stay logarithmic in the total size
+
+type BudgetCase struct {
+	Total      int64   `json:"total"`
+	FirstTier  int64   `json:"first_tier"`
+	PerTier    int     `json:"max_segments_per_tier"`
+	TierGrowth float64 `json:"tier_growth"`
+}
+
+func propBudget(c BudgetCase) *vlib.Failure {
+	o := &mergeplan.Options{MaxSegmentsPerTier: c.PerTier, TierGrowth: c.TierGrowth}
+	var got int
+	if f := vlib.Watchdog("mergeplan.CalcBudget", 20*time.Second, func() *vlib.Failure {
+		got = mergeplan.CalcBudget(c.Total, c.FirstTier, o)
+		return nil
+	}); f != nil {
+		f.Msg = fmt.Sprintf("CalcBudget(total=%d, firstTier=%d, perTier=%d, growth=%v): %s", c.Total, c.FirstTier, c.PerTier, c.TierGrowth, f.Msg)
+		return f
+	}
+	// own staircase: tiers grow geometrically (at least by one unit), so for growth > 1 the
+	// budget is bounded by perTier x (number of tiers needed to cover the total)
+	if c.TierGrowth > 1 && c.Total > 0 {
+		tier, covered, tiers := float64(c.FirstTier), float64(0), 0
+		if tier < 1 {
+			tier = 1
+		}
+		for covered < float64(c.Total) && tiers < 1<<20 {
+			covered += float64(c.PerTier) * tier
+			next := float64(int64(tier * c.TierGrowth))
+			if next <= tier {
+				next = tier + 1
+			}
+			tier = next
+			tiers++
+		}
+		if got > c.PerTier*tiers || got < 1 {
+			return vlib.Failf("budget-not-logarithmic", "CalcBudget(total=%d, firstTier=%d, perTier=%d, growth=%v) = %d, a geometric staircase needs at most %d tiers x %d", c.Total, c.FirstTier, c.PerTier, c.TierGrowth, got, tiers, c.PerTier)
+		}
+	}
+	return nil
+}
+
+func TestC19Budget(t *testing.T) {
+	vlib.Check(t, 2000, 20000, func(rt *rapid.T) {
+		c := BudgetCase{
+			Total:      rapid.SampledFrom([]int64{0, 1, 2, 1000, 1 << 20, 1 << 31, 1 << 40, 1 << 50}).Draw(rt, "total"),
+			FirstTier:  rapid.SampledFrom([]int64{0, 1, 1, 2, 3, 7, 2000, 1 << 20}).Draw(rt, "firstTier"),
+			PerTier:    rapid.IntRange(1, 30).Draw(rt, "perTier"),
+			TierGrowth: rapid.SampledFrom([]float64{1.1, 1.25, 1.5, 1.5, 1.99, 2, 3, 10, 20}).Draw(rt, "growth"),
+		}
+		if rapid.Bool().Draw(rt, "anyTotal") {
+			c.Total = rapid.Int64Range(0, 1<<50).Draw(rt, "totalAny")
+		}
+		f := propBudget(c)
+		nt := c.FirstTier <= 3 && c.TierGrowth < 2 && c.Total >= 1<<20
+		ev.Case(vlib.Canon(c), nt, "budget")
+		ev.Sample(map[string]interface{}{"kind": "budget", "case": c}, nt)
+		vlib.Report(rt, ev, "budget", c, f)
+	})
+}
+
 var replayFns = map[string]vlib.ReplayFn{
+	"budget": func(raw json.RawMessage) *vlib.Failure {
+		var c BudgetCase
+		if f := vlib.Decode(raw, &c); f != nil {
+			return f
+		}
+		return propBudget(c)
+	},
 	"plan": func(raw json.RawMessage) *vlib.Failure {
 		var c PlanCase
 		if f := vlib.Decode(raw, &c); f != nil {
